@@ -5,6 +5,7 @@ import (
 	"go/ast"
 	"go/constant"
 	"go/token"
+	"go/types"
 	"sort"
 	"strconv"
 	"strings"
@@ -170,54 +171,87 @@ func ruleQ3(c *Ctx) {
 		c.anchorFail("starlark.writeValue / pathContains not found")
 		return
 	}
-	pathP := wv.Params[2]
+	// the printer: writeValue plus the package-local helpers it calls that take a
+	// path parameter of the same type (writeList, writeDict, ... after a split)
+	pathT := wv.Params[2].Type()
+	printer := map[*ssa.Function]*ssa.Parameter{wv: wv.Params[2]}
+	work := []*ssa.Function{wv}
+	for i := 0; i < len(work); i++ {
+		eachInstr(work[i], func(in ssa.Instruction) {
+			call, ok := in.(*ssa.Call)
+			if !ok {
+				return
+			}
+			cal := call.Call.StaticCallee()
+			if cal == nil || cal.Blocks == nil || fnPkgPath(cal) != modPath+"/starlark" || printer[cal] != nil || cal == pc {
+				return
+			}
+			for _, prm := range cal.Params {
+				if types.Identical(prm.Type(), pathT) && cal.Signature.Results().Len() == 0 {
+					printer[cal] = prm
+					work = append(work, cal)
+				}
+			}
+		})
+	}
 	extendedTypes := map[string]bool{}
 	n := 0
-	eachInstr(wv, func(in ssa.Instruction) {
-		call, ok := in.(*ssa.Call)
-		if !ok || call.Call.StaticCallee() != wv {
-			return
-		}
-		n++
-		arg := call.Call.Args[2]
-		key := "writeValue: recursive call"
-		pos := c.P.Pos(call.Pos())
-		switch x := arg.(type) {
-		case *ssa.Parameter:
-			if x == pathP {
-				c.ok(key+" (path passed on)", pos, "passes the incoming path unchanged")
+	for _, fn := range work {
+		pathP := printer[fn]
+		eachInstr(fn, func(in ssa.Instruction) {
+			call, ok := in.(*ssa.Call)
+			if !ok || printer[call.Call.StaticCallee()] == nil {
 				return
 			}
-		case *ssa.Call:
-			if b, ok := x.Call.Value.(*ssa.Builtin); ok && b.Name() == "append" && x.Call.Args[0] == pathP {
-				// what is appended?
-				elemT := ""
-				for _, v := range variadicElems(x.Call.Args[1]) {
-					if mi, ok := v.(*ssa.MakeInterface); ok {
-						elemT = qualType(mi.X.Type())
-					}
+			cal := call.Call.StaticCallee()
+			// which argument is the callee's path?
+			var arg ssa.Value
+			for i, prm := range cal.Params {
+				if prm == printer[cal] && i < len(call.Call.Args) {
+					arg = call.Call.Args[i]
 				}
-				// guard: false edge of pathContains(path, x)
-				guarded := false
-				for _, cnd := range pathConds(call.Block()) {
-					cv, neg := stripNot(cnd.If.Cond)
-					if cc, ok := cv.(*ssa.Call); ok && cc.Call.StaticCallee() == pc && cc.Call.Args[0] == pathP && (cnd.Branch == neg) {
-						guarded = true
-					}
-				}
-				if guarded {
-					extendedTypes[elemT] = true
-					c.ok(key+" (path extended with "+elemT+")", pos, "append(path, container) under !pathContains(path, container)")
-				} else {
-					c.viol(key+" (path extended with "+elemT+")", pos, "the path is extended with the container but the call is not guarded by !pathContains(path, container): a self-containing value is printed forever")
-				}
+			}
+			if arg == nil {
 				return
 			}
-		}
-		c.viol(key, pos, "a recursive writeValue call does not pass a path derived from the incoming one (it restarts with an empty or unrelated path): the enclosing containers are forgotten and a cycle through this edge recurses until the stack overflows")
-	})
+			n++
+			key := fnName(fn) + ": call of " + cal.Name()
+			pos := c.P.Pos(call.Pos())
+			switch x := arg.(type) {
+			case *ssa.Parameter:
+				if x == pathP {
+					c.ok(key+" (path passed on)", pos, "passes the incoming path unchanged")
+					return
+				}
+			case *ssa.Call:
+				if b, ok := x.Call.Value.(*ssa.Builtin); ok && b.Name() == "append" && x.Call.Args[0] == pathP {
+					elemT := ""
+					for _, v := range variadicElems(x.Call.Args[1]) {
+						if mi, ok := v.(*ssa.MakeInterface); ok {
+							elemT = qualType(mi.X.Type())
+						}
+					}
+					guarded := false
+					for _, cnd := range pathConds(call.Block()) {
+						cv, neg := stripNot(cnd.If.Cond)
+						if cc, ok := cv.(*ssa.Call); ok && cc.Call.StaticCallee() == pc && cc.Call.Args[0] == pathP && (cnd.Branch == neg) {
+							guarded = true
+						}
+					}
+					if guarded {
+						extendedTypes[elemT] = true
+						c.ok(key+" (path extended with "+elemT+")", pos, "append(path, container) under !pathContains(path, container)")
+					} else {
+						c.viol(key+" (path extended with "+elemT+")", pos, "the path is extended with the container but the call is not guarded by !pathContains(path, container): a self-containing value is printed forever")
+					}
+					return
+				}
+			}
+			c.viol(key, pos, "a recursive printer call does not pass a path derived from the incoming one (it restarts with an empty or unrelated path): the enclosing containers are forgotten and a cycle through this edge recurses until the stack overflows")
+		})
+	}
 	if n == 0 {
-		c.viol("writeValue: recursion", c.P.Pos(wv.Pos()), "writeValue no longer recurses on itself")
+		c.viol("writeValue: recursion", c.P.Pos(wv.Pos()), "writeValue no longer recurses")
 	}
 	for _, t := range []string{"starlark.List", "starlark.Dict"} {
 		key := "writeValue: cycle check for " + t
